@@ -12,10 +12,11 @@ def lcfirst(s):
     return s[0].lower() + s[1:]
 
 
-def setup(c, n, rt):
+def setup(c, n, rt, preset=()):
     c.db_conn.execute("DELETE FROM pages")
     for i in range(n):
-        c.add_page("Template:" + NAMES[i], 10, "x")
+        # preset[i]: the template already carries the flag when the analysis starts (second analysis run, or added with it)
+        c.add_page("Template:" + NAMES[i], 10, "x", need_pre_expand=bool(preset and preset[i]))
     if rt >= 0:
         target = "Template:" + (NAMES[rt] if rt < n else "Nowhere")
         c.add_page("Template:" + RNAME, 10, None, redirect_to=target)
@@ -30,11 +31,11 @@ VARIANTS = {
 }
 
 
-def analyze(c, n, inc, incR, flags, rt, rflag, variant="lc"):
+def analyze(c, n, inc, incR, flags, rt, rflag, variant="lc", preset=()):
     """inc[i][j] in {0: no, 1: i includes j (name as stored), 2: i includes j written in another spelling that get_page /
     expansion resolve to the same page (VARIANTS[variant])};
     incR[i]: i includes the redirect page by name; rt: redirect target index (-1 none, n dangling)."""
-    setup(c, n, rt)
+    setup(c, n, rt, preset)
     used = {}
     for i in range(n):
         s = set()
@@ -80,16 +81,17 @@ def reference(n, inc, incR, flags, rt, rflag):
     return marked
 
 
-def agree(n, inc, incR, flags, rt, rflag, variant="lc") -> bool:
-    return analyze(ctx, n, inc, incR, flags, rt, rflag, variant) == reference(n, inc, incR, flags, rt, rflag)
+def agree(n, inc, incR, flags, rt, rflag, variant="lc", preset=()) -> bool:
+    return analyze(ctx, n, inc, incR, flags, rt, rflag, variant, preset) == reference(n, inc, incR, flags, rt, rflag)
 
 
-def replay_case(n, inc, incR, flags, rt, rflag, variant="lc"):
+def replay_case(n, inc, incR, flags, rt, rflag, variant="lc", preset=()):
     c = Wtp(quiet=True, quiet_output=True)
-    got = analyze(c, n, inc, incR, flags, rt, rflag, variant)
+    got = analyze(c, n, inc, incR, flags, rt, rflag, variant, preset)
     want = reference(n, inc, incR, flags, rt, rflag)
     edges = [f"{NAMES[i]} includes {NAMES[j] if inc[i][j] == 1 else VARIANTS[variant](NAMES[j])!r}" for i in range(n) for j in range(n) if inc[i][j]]
     edges += [f"{NAMES[i]} includes {RNAME}" for i in range(n) if rt >= 0 and incR[i]]
     red = "" if rt < 0 else f"; redirect {RNAME} -> {NAMES[rt] if rt < n else 'Nowhere'}{' (flagged)' if rflag else ''}"
-    sig = f"analyze_templates on templates {NAMES[:n]}: {'; '.join(edges) or 'no inclusions'}; flagged {[NAMES[i] for i in range(n) if flags[i]]}{red}"
+    pre = f"; already flagged before the analysis: {[NAMES[i] for i in range(n) if preset and preset[i]]}" if preset and any(preset) else ""
+    sig = f"analyze_templates on templates {NAMES[:n]}: {'; '.join(edges) or 'no inclusions'}; flagged {[NAMES[i] for i in range(n) if flags[i]]}{red}{pre}"
     return (sig, got != want, f"marked {sorted(got)}, closure is {sorted(want)}")
